@@ -42,6 +42,44 @@ def first_party(f):
     return "blocks" in f and f.get("file", "").startswith((_F.REPO + "/", "<amalgamated>", _F.VERIF + "/fixtures/"))
 
 
+def single_inits(f):
+    """{local id: initialiser} for locals that are declared with an initialiser and never written again."""
+    inits, written = {}, set()
+    for b in f["blocks"]:
+        for st in b["stmts"]:
+            if st["k"] == "decl":
+                for v in st["vars"]:
+                    if v.get("init") is not None:
+                        inits[v["id"]] = v["init"]
+            for n in X.stmt_nodes(st):
+                tgt = None
+                if n.get("k") == "assign":
+                    tgt = n["lhs"]
+                elif n.get("k") == "un" and n.get("op") in ("++", "--"):
+                    tgt = n["e"]
+                t0 = X.strip(tgt) if tgt is not None else None
+                if isinstance(t0, dict) and t0.get("k") == "ref" and t0.get("id") is not None:
+                    written.add(t0["id"])
+    return {k: v for k, v in inits.items() if k not in written}
+
+
+def resolve_flag(cond, inits, depth=0):
+    """A branch on a bool local that is only ever its initialiser is a branch on that initialiser
+    (`const bool refused = pred(); if (refused)` = `if (pred())`)."""
+    c0 = X.strip(cond)
+    if isinstance(c0, dict) and c0.get("k") == "un" and c0.get("op") == "!":
+        inner = resolve_flag(c0["e"], inits, depth)
+        if inner is not c0["e"]:
+            d = dict(c0)
+            d["e"] = inner
+            return d
+        return cond
+    if isinstance(c0, dict) and c0.get("k") == "ref" and c0.get("kind") == "local" and (c0.get("ty") or "").replace("const ", "") == "bool" \
+            and c0.get("id") in inits and depth < 3:
+        return resolve_flag(inits[c0["id"]], inits, depth + 1)
+    return cond
+
+
 def term_cond(b):
     """The condition actually evaluated at the end of block b (rightmost operand of &&/||)."""
     t = b["term"]
